@@ -6,6 +6,7 @@ import (
 	"context"
 	"net"
 	"net/http"
+	"sync"
 
 	"github.com/ameshkov/dnscrypt/v2"
 	"github.com/miekg/dns"
@@ -80,4 +81,17 @@ func (s *ServerDNSCrypt) VerifC01DNSCryptHandler() (h dnscrypt.Handler) {
 // VerifC01PackWithPrefix exposes packWithPrefix.
 func VerifC01PackWithPrefix(m *dns.Msg, buf []byte) (packed []byte, err error) {
 	return packWithPrefix(m, buf)
+}
+
+// VerifC01ServeQUICStreamAsync runs the real per-stream goroutine body, i.e.
+// serveQUICStream inside the wrapper that recovers from panics.
+func (s *ServerQUIC) VerifC01ServeQUICStreamAsync(stream quic.Stream, conn quic.Connection) {
+	reqCtx, cancel := s.requestContext()
+	defer cancel()
+
+	reqCtx = ContextWithRequestInfo(reqCtx, &RequestInfo{})
+
+	wg := &sync.WaitGroup{}
+	wg.Add(1)
+	s.serveQUICStreamAsync(reqCtx, stream, conn, wg)
 }
